@@ -130,6 +130,8 @@ def run_case(case):
             out = hexlib.fmt_exc(e)
             res.fail("next-raised", "next(%r) raised %r" % (k, e))
         res.emit("hx.next 0 %s" % ("none" if k is None else hx(k)), out)
+        # raw level: _get_key_after / _get_next_key over annotated raw nodes, traverse_from through the database
+        res.emit("hx.nextd %s %s" % (hx(trie.root_hash), "none" if k is None else hx(k)), out if not out.startswith("exn") else "exn")
         if nk is not False:
             bigger = [x for x in skeys if k is None or x > k]
             want = bigger[0] if bigger else None
